@@ -624,6 +624,11 @@ def classify(res, gen_lines, linemap):
         if msg.startswith("precondition not satisfied"):
             # primary = call site, secondary = failed precondition clause
             for s in sec:
+                if not os.path.abspath(str(s.get("file_name", ""))).startswith(os.path.abspath(os.path.join(VERIF, "build"))):
+                    # the failed precondition belongs to a library function (vstd): name it after the callee in the call-site text
+                    callee = re.findall(r"\.(\w+)\s*\(", (prim[0]["text"][0]["text"] if prim and prim[0].get("text") else "")[(prim[0]["text"][0].get("highlight_start", 1) - 1):(prim[0]["text"][0].get("highlight_end", 1) - 1)] if prim and prim[0].get("text") else "")
+                    site_label = "pre:" + (callee[-1] if callee else "library_function")
+                    continue
                 l2, f2, t2, _ = locate(gen_lines, linemap, s["line_start"], s.get("line_end"))
                 if l2:
                     site_label = "pre:" + (f2 or "?") + "/" + l2
@@ -1114,8 +1119,9 @@ def decide(prop, tier, seed):
     # ---- witness search: a concrete failing input on the real crate (replay), DESIGN.md §3.2
     witness_runs = []
     wnames = [w for w in pinfo.get("witness", []) if (w["name"] if isinstance(w, dict) else w) not in {b.get("name") for b in bounded}]
-    need_witness = any(v[1].get("witness") is None for v in violations) or (reasons and not violations)
-    if wnames and need_witness:
+    # the witness harnesses are cheap (seconds): they always run. A proof stands relative to its shims; a hand-written shim that stands for
+    # code of /repo (found twice: Env, util::run_command - both now under contract) would otherwise hide a defect from a check whose proofs all pass.
+    if wnames:
         try:
             witness_runs = run_bounded(prop, tier, seed, names=wnames)
         except Undecided as e:
@@ -1130,12 +1136,12 @@ def decide(prop, tier, seed):
                 f["witness"] = wit[0]
                 attached = True
         if not violations:
-            # the proof could not be attempted or completed, but the real code fails the executable contract on a concrete input
+            # the proof could not be attempted or completed (or stands relative to an assumption that does not hold), but the real code fails the executable contract on a concrete input
             w = wit[0]
             vid = f"witness/{w['check']}/{w.get('case', '?')}"
             if not [x for x in findings if x.get("property") == prop and x.get("obligation") == vid]:
                 violations.append((vid, {"label": w.get("case"), "function": w["check"], "kind": "witness", "message": w.get("what", ""),
-                                         "witness": w, "rendered": json.dumps(w) + "\n(undecided by the verifier: " + "; ".join(reasons)[:600] + ")"}, None))
+                                         "witness": w, "rendered": json.dumps(w) + ("\n(undecided by the verifier: " + "; ".join(reasons)[:600] + ")" if reasons else "\n(every proof obligation was discharged: the failing input lies in code that the proofs only assume - see the evidence file's assumptions)")}, None))
     kept = []
     for oid, f, r in violations:
         if f.get("restructured") and not f.get("witness"):
